@@ -1,5 +1,5 @@
 From Coq Require Import ZArith List Bool Lia ZifyBool.
-From HV Require Import Prelude.Py Prelude.State Bridge.BridgeTac.
+From HV Require Import Prelude.Py Prelude.State Bridge.BridgeConsts.
 From HV Require Gen.GData Gen.GInt Gen.GTable Gen.GHuff Model.Data Model.Int Model.Table Model.HuffEnc Model.HuffDec.
 Open Scope Z_scope.
 Lemma b_table_entry_size : forall n v, GTable.table_entry_size n v = Table.table_entry_size n v.
